@@ -302,3 +302,162 @@ def units():
     return _du0() + [ScenUnit("PowersOfX::random: accepted sample is consistent and in range", ["C07", "C10"], gen_powers_random, targets=["PowersOfX::random"], max_paths=2000,
                               contracts_used=["BigInt::multiply exact, add exact (C02)", "BigInt<64>::random: 8 arbitrary bytes", "BigInt::compare"],
                               assumes=["uniformity: digits <-> [0,r) is a bijection on the accepted set (one line, paper)", "termination of the rejection loops is not claimed"])]
+
+
+# ---------------------------------------------------------------------------
+# BigInt::divide_std_dword, bit-serial branch (configuration without unsigned __int128): one digit = 64 restoring-division steps
+#     top_bit = rem >> 63;  rem = (rem << 1) | bit_i(lower);  if (top_bit == 1 || rem >= d) { rem -= d; quotient |= 1 << i; }
+# WORD back end with a LOOP CUT on the bit loop.  Invariant at the head with loop variable i (bits 63 .. i+1 consumed):
+#     rem < d,   quotient == Qh * 2^(i+1),   upper * 2^(63-i) + (lower >> (i+1)) == Qh * d + rem
+# Base: i == 63, rem == upper < d, quotient == 0.  Step, for every i in 63..0 and every outcome of the two tests: the real body re-establishes the
+# invariant for i-1 (the identity is polynomial; rem' in [0, d) and the value of the borrow come from the linear prover).  Exit (i == -1):
+# upper * 2^64 + lower == quotient * d + rem, rem < d -- the digit step of the outer loop, which chains as in the 64-bit configurations.
+def gen_divide_bitserial(tu):
+    from worddom import WordDomain, WVal, wv
+    from symx import CutDone, loops_of, locals_of, for_parts, run_iteration, loop_var
+    tu32 = U.get_tu(tu, "w32", U.SHARED["workdir"])
+    qs = [q for q, f in tu32.by_qname.items() if f.body is not None and re.match(r"BigInt<\d+>::divide_std_dword<", q)]
+    if not qs:
+        import jast
+        raise jast.ExtractionError("no instance of BigInt::divide_std_dword in the 32-bit-word configuration")
+    consts32 = U.get_consts_variant(tu32, "w32", U.SHARED["workdir"])
+    ok = lambda w, c, m="": (w, "ok" if c else "fail", "" if c else m, None)
+    for q in sorted(qs):
+        f = tu32.func(q)
+        d = int(f.targs[0]) % (1 << 64)
+        loops = loops_of(f)
+        if len(loops) != 2:
+            import jast
+            raise jast.ExtractionError("%s: expected the digit loop and the bit loop, found %d loops" % (q, len(loops)))
+        names = locals_of(f)
+        inner = loops[1]
+
+        def setup(path):
+            dom = WordDomain(consts=consts32, word_bits=32)
+            dom.use_z3 = True
+            dom.incremental = True
+            I = Interp(tu32, dom)
+            I.path = path
+            a = I.new_object(f.record.qname)
+            a.val = dom.input_words("a", dom.nwords(a.type))
+            this = I.new_object(f.record.qname)
+            return dom, I, a, this
+
+        def run_base(path):
+            dom, I, a, this = setup(path)
+            st = {}
+
+            def cut(I_, n, env):
+                init, cond, inc, body = for_parts(n)
+                if init.get("kind"):
+                    I_.exec(init, env)
+                iv = env[loop_var(n)].v
+                rem, quo, up = env[names["rem"]].v, env[names["quotient"]].v, env[names["dividend_upper"]].v
+                raise CutDone([ok("base: i == 63", iv == 63, repr(iv)), ok("base: quotient == 0", quo == 0, repr(quo)),
+                               ok("base: rem == dividend_upper (which is the previous digit's remainder, below d, or 0)", wv(rem).p == wv(up).p, repr(rem))])
+            I.loop_cuts[inner["id"]] = cut
+            try:
+                I.call(f, this, [a], force_body=True)
+            except CutDone as e:
+                return e.obs
+            return [ok("base: bit loop reached", False)]
+        yield q + " base", guarded(run_base)
+
+        for i0 in list(range(63, -1, -1)):
+            def run_step(path, i0=i0):
+                dom, I, a, this = setup(path)
+                st = {}
+
+                def cut(I_, n, env):
+                    if st.get("entered"):
+                        iv = env[loop_var(n)].v
+                        rem1, q1 = wv(env[names["rem"]].v), wv(env[names["quotient"]].v)
+                        # carry / borrow symbols that the prover pins to 0 or 1 on this path
+                        for v in sorted(set(rem1.p.vars()) | set(q1.p.vars())):
+                            if v.startswith("b#") or v.startswith("c#"):
+                                if dom.prove_lt(Poly.var(v), 1):
+                                    dom.constraints.append((Poly.var(v), "=="))
+                                elif dom.prove_lt(Poly.const(1) - Poly.var(v), 1):
+                                    dom.constraints.append((Poly.var(v) - 1, "=="))
+                        if dom.prove_lt(Poly(), 0):
+                            raise Abandon()
+                        remp, qp = dom.reduce_eq(rem1.p), dom.reduce_eq(q1.p)
+                        U_, L_, REM, QH = st["U"], st["L"], st["REM"], st["QH"]
+                        # invariant for i0 - 1:  U * 2^(64 - i0) + (L >> i0) == (q' / 2^i0) * d + rem'
+                        sh = i0
+                        div_ok = all(c % (1 << sh) == 0 for c in qp.t.values())
+                        Qh1 = Poly({m: c >> sh for m, c in qp.t.items()}) if div_ok else Poly()
+                        Lsh = wv(dom.split(WVal(L_, (1 << 64) - 1), sh)[1]).p
+                        D = dom.reduce_eq(U_ * (1 << (64 - i0)) + Lsh - Qh1 * d - remp)
+                        raise CutDone([ok("step i=%d: i' == i - 1" % i0, iv == i0 - 1, repr(iv)),
+                                       ok("step i=%d: quotient' is a multiple of 2^i" % i0, div_ok, repr(qp)[:200]),
+                                       ok("step i=%d: upper * 2^(64-i) + (lower >> i) == (quotient' / 2^i) * d + rem'  (exact)" % i0, D.is_zero(), "residual %r" % D),
+                                       ok("step i=%d: rem' < d" % i0, dom.prove_lt(remp, d), "not derivable")])
+                    st["entered"] = True
+                    init, cond, inc, body = for_parts(n)
+                    if init.get("kind"):
+                        I_.exec(init, env)
+                    env[loop_var(n)].v = i0
+                    REM = dom.input_word("rem", d - 1)
+                    QH = dom.input_word("qh", (1 << (63 - i0)) - 1) if i0 < 63 else 0
+                    U_w = dom.input_word("upper", d - 1)
+                    Lw = dom.input_word("lower", (1 << 64) - 1)
+                    env[names["rem"]].v = REM
+                    env[names["quotient"]].v = WVal(wv(QH).p * (1 << (i0 + 1)), wv(QH).hi << (i0 + 1)) if i0 < 63 else 0
+                    env[names["dividend_upper"]].v = U_w
+                    env[names["dividend_lower"]].v = Lw
+                    st.update(U=U_w.p, L=Lw.p, REM=REM.p, QH=wv(QH).p)
+                    # invariant as a fact for the prover: U * 2^(63-i) + (L >> (i+1)) == Qh * d + rem
+                    if i0 < 63:
+                        # lower >> (i+1), written through the same splits the code performs (lower >> i, then the low bit), so that the symbols coincide
+                        Lhi = wv(dom.split(dom.split(Lw, i0)[1], 1)[1]).p
+                        inv = U_w.p * (1 << (63 - i0)) + Lhi - wv(QH).p * d - REM.p
+                    else:
+                        inv = U_w.p - REM.p                   # i == 63: (L >> 64) == 0, Qh == 0
+                    dom.constraints.append((inv, "=="))         # the invariant: an equality of the path (used by the prover and by reduce_eq)
+                    went = run_iteration(I_, n, env)
+                    if not went:
+                        raise CutDone([ok("step i=%d: loop guard holds" % i0, False)])
+                    return cut(I_, n, env)
+                I.loop_cuts[inner["id"]] = cut
+                try:
+                    I.call(f, this, [a], force_body=True)
+                except CutDone as e:
+                    return e.obs
+                return [ok("step: cut reached", False)]
+            yield q + " step i=%d" % i0, guarded(run_step)
+
+        def run_exit(path):
+            # the invariant at i == -1 IS the digit relation; here: what the digit loop does with it (store quotient, carry rem on), all digits
+            dom, I, a, this = setup(path)
+            k = [0]
+
+            def cut(I_, n, env):
+                # replace the bit loop by its contract: fresh (quotient, rem) with upper * 2^64 + lower == quotient * d + rem, rem < d
+                k[0] += 1
+                up, lo = wv(env[names["dividend_upper"]].v), wv(env[names["dividend_lower"]].v)
+                Q_ = dom.input_word("dq%d" % k[0], (1 << 64) - 1)
+                R_ = WVal(up.p * (1 << 64) + lo.p - Q_.p * d, d - 1)
+                env[names["quotient"]].v = Q_
+                env[names["rem"]].v = R_
+            I.loop_cuts[inner["id"]] = cut
+            A = dom.value(a)
+            ret = wv(I.rv(I.call(f, this, [a], force_body=True)))
+            D = dom.reduce_eq(A - dom.value(this) * d - ret.p)
+            return [ok("%s: with the bit loop replaced by its proved relation, VAL(a) == VAL(self) * d + rem over all digits (exact)" % q, D.is_zero(), "residual %r" % D),
+                    ok("%s: rem < d" % q, dom.refine(ret).hi < d), ok("%s: one bit loop per digit" % q, k[0] == dom.nwords(a.type) * 32 // 64, str(k[0]))]
+        yield q + " digits", guarded(run_exit)
+
+
+def units_bitserial():
+    u = ScenUnit("BigInt::divide_std_dword<d> [portable C++, 32-bit words: bit-serial branch]: loop cut on the 64 restoring-division steps; digits chain to VAL(a) == VAL(self)*d + rem", ["C03", "C06"], gen_divide_bitserial, targets=[],
+                 contracts_used=["WORD back end, loop cut (base / step for every bit index and branch outcome / composition)"])
+    u.back_end = "WORD"
+    return [u]
+
+
+_du1 = units
+
+
+def units():
+    return _du1() + units_bitserial()
